@@ -289,6 +289,13 @@ def gen_range_reads(rng, tier, opfmt, payloads=None, extra_n=None):
                 pairs.append((rng.choice(ALL_KINDS), rng.choice(vals), rng.choice(ALL_KINDS), rng.choice(vals)))
         if rng.random() < 0.3:
             h.reopen()
+        # directed: every critical value as a one-sided bound of each kind
+        cv = vals if len(vals) <= 60 else rng.sample(vals, 60)
+        for v in cv:
+            pairs.append(("I", v, "U", 0))
+            pairs.append(("E", v, "U", 0))
+            pairs.append(("U", 0, "I", v))
+            pairs.append(("U", 0, "E", v))
         for (ks, a, ke, b) in pairs:
             h.op(opfmt.format(s=bound(ks, a), e=bound(ke, b)))
         out.append(("rand", h.script()))
